@@ -112,8 +112,8 @@ func c07Shape(c *Ctx) {
 					hasCond(dc, `#1\.\(\*trie\.shortNode\)#1=F$`) && strings.HasPrefix(l.fields["Val"], child) && strings.HasSuffix(l.fields["Val"], "#1"), l.a.Pos(), 1, strings.Join(dc, " ; "))
 			case strings.HasPrefix(l.fields["Key"], "call:append(slicelit["):
 				found["pull"] = true
-				c.Check("G", fnName(fn)+"/a branch reduced to one short-node child becomes that child with the nibble prefixed",
-					hasCond(dc, `>= const:0\)=T$`) && hasCond(dc, `!= const:16\)=T$`) && hasCond(dc, `\.\(\*trie\.shortNode\)#1=T$`) && strings.HasSuffix(l.fields["Key"], ".(*trie.shortNode)#0.Key)") && strings.HasSuffix(l.fields["Val"], ".(*trie.shortNode)#0.Val"), l.a.Pos(), 1, clip(l.fields["Key"], 120)+" under "+clip(strings.Join(dc, " ; "), 300))
+				c.Check("G", fnName(fn)+"/a branch reduced to one child resolves it and, if it is a short node, becomes that child with the nibble prefixed",
+					hasCond(dc, `>= const:0\)=T$`) && hasCond(dc, `!= const:16\)=T$`) && hasCond(dc, `^call:\(\*trie\.Trie\)\.resolve\(t, call:\(\*trie\.fullNode\)\.copy\(.*#0\.\(\*trie\.shortNode\)#1=T$`) && hasCond(dc, `^\(call:\(\*trie\.Trie\)\.resolve\(.*#1 != nil\)=F$`) && strings.Contains(l.fields["Key"], "call:(*trie.Trie).resolve(t, call:(*trie.fullNode).copy(") && strings.HasSuffix(l.fields["Key"], ".(*trie.shortNode)#0.Key)") && strings.HasSuffix(l.fields["Val"], ".(*trie.shortNode)#0.Val"), l.a.Pos(), 1, clip(l.fields["Key"], 120)+" under "+clip(strings.Join(dc, " ; "), 300))
 			case strings.HasPrefix(l.fields["Key"], "slicelit["):
 				found["one"] = true
 				c.Check("G", fnName(fn)+"/a branch reduced to one other child becomes a one-nibble short node over it",
@@ -292,6 +292,41 @@ func c07Codec(c *Ctx) {
 		c.Precedes(fn, "absorb the data", CallTo(`\)\.Write$`, ""), "squeeze the hash", CallTo(`\)\.Read$`, ""))
 	}
 	if fn := c.Fn("trie", "StackTrie", "hashRec"); fn != nil {
+		// a child is referenced raw when its encoding is shorter than 32 bytes and by hash otherwise — in the branch and
+		// in the extension case alike (the same rule the trie's hasher applies)
+		kinds := map[string]map[string]int{}
+		allInstrs(fn, false, func(_ *ssa.Function, in ssa.Instruction) {
+			st, ok := in.(*ssa.Store)
+			if !ok {
+				return
+			}
+			mi, ok := st.Val.(*ssa.MakeInterface)
+			if !ok {
+				return
+			}
+			t := namedOf(mi.X.Type())
+			if t != "trie.rawNode" && t != "trie.hashNode" {
+				return
+			}
+			src := pathOf(st.Val)
+			if !strings.Contains(src, "st.children[") {
+				return
+			}
+			site := "extension"
+			if strings.Contains(pathOf(st.Addr), "Children[") {
+				site = "branch"
+			}
+			if kinds[site] == nil {
+				kinds[site] = map[string]int{}
+			}
+			kinds[site][t]++
+			dc := domConds(in)
+			want := `^\(call:len\(` + regexpQuote(src) + `\) < const:32\)=` + map[string]string{"trie.rawNode": "T", "trie.hashNode": "F"}[t] + `$`
+			c.Check("G", fmt.Sprintf("%s/%s child is referenced as %s exactly when its encoding is %s 32 bytes", fnName(fn), site, t[5:], map[string]string{"trie.rawNode": "shorter than", "trie.hashNode": "at least"}[t]), hasCond(dc, want), instrPos(in), 1, strings.Join(dc, " ; "))
+		})
+		for _, site := range []string{"branch", "extension"} {
+			c.Check("S", fmt.Sprintf("%s/%s children have both the embedded and the hashed reference form", fnName(fn), site), kinds[site]["trie.rawNode"] == 1 && kinds[site]["trie.hashNode"] == 1, fn.Pos(), 2, fmt.Sprint(kinds[site]))
+		}
 		nEnc := len(findInstrs(fn, CallTo(`^\(\*trie\.(short|full)Node\)\.encode$`, "")))
 		nCmp := len(findInstrs(fn, CallTo(`^trie\.hexToCompact$`, "")))
 		nEmb := len(findInstrs(fn, IfOn(`< const:32\)$`)))
